@@ -62,6 +62,16 @@ class OptProxy:
             else:
                 v = self._c.bool(f"{self._tag}.{name}")
             val: Any = bool(v)  # fork: the rendering code needs concrete flags to build strings
+        elif name in ("enabled_error_codes", "disabled_error_codes"):
+            # a set of error codes: contains call-arg or not (per run; shared when the option is keyed)
+            from mypy import errorcodes as _codes
+
+            key_ = name + ".contains_call_arg"
+            if name in self._keyed:
+                v = self._shared.setdefault(key_, self._c.bool("both." + key_))
+            else:
+                v = self._c.bool(f"{self._tag}.{key_}")
+            val = {_codes.CALL_ARG} if bool(v) else set()
         elif name == "many_errors_threshold":
             val = -1
         else:
@@ -164,7 +174,90 @@ def k1_replay_path(rep: Report) -> None:
         rep.candidate(key, f"toggling {opt} between runs: warm prints {warm[:3]} ..., cold prints {cold[:3]} ...", {k: v for k, v in m.items() if opt in k}, replay_option(opt))
 
 
+def k1b_storage_path(rep: Report) -> None:
+    """Like K1, one step earlier: diagnostics are *stored* (Errors.report -> add_error_info ->
+    _add_error_info) under the options A of the run that fills the cache, then rendered and formatted
+    as in K1 under the options B of the warm run; a cold run stores, renders and formats under B.
+    Options that are part of the cache key are equal in A and B."""
+    global _PROTO
+    import mypy.errors as E
+    from mypy import errorcodes as codes
+    from mypy.options import OPTIONS_AFFECTING_CACHE, Options
+
+    _PROTO = Options()
+    keyed = set(OPTIONS_AFFECTING_CACHE)
+    names = ["Errors.report", "Errors.add_error_info", "Errors._add_error_info", "Errors.is_ignored_error", "Errors.is_error_code_enabled", "Errors.note_for_info", "Errors.file_messages", "Errors.sort_messages", "Errors.sort_within_context", "Errors.remove_duplicates", "Errors.render_messages", "Errors.simplify_path", "Errors.format_messages_default", "remove_path_prefix"]
+    K = Kernel("mypy.errors", names, closure=False)
+    rep.kernels_from(K)
+
+    class KErrors(E.Errors):
+        pass
+
+    for nm in names:
+        if nm.startswith("Errors."):
+            setattr(KErrors, nm.split(".", 1)[1], K[nm])
+    ctx = Ctx(max_paths=200000)
+    found: dict[str, tuple] = {}
+    reads_store: set = set()
+    n = {"paths": 0}
+    CODES = [codes.CALL_ARG, codes.ARG_TYPE, codes.MISC]
+
+    def store(opts: Any, which: list) -> Any:
+        er = KErrors(opts)
+        er.set_file("pkg/m.py", "pkg.m", opts)
+        er.set_file_ignored_lines("pkg/m.py", {}, False)
+        er.set_skipped_lines("pkg/m.py", set())
+        er.ignore_prefix = os.getcwd() + os.sep
+        for i, code in enumerate(which):
+            er.report(10 + i, 2, f"problem {i}", code=code)
+        return er
+
+    def body(c: Ctx) -> None:
+        shared: dict = {}
+        ra: set = set()
+        rb: set = set()
+        A = OptProxy(c, "A", keyed, shared, ra)
+        B = OptProxy(c, "B", keyed, shared, rb)
+        which = [CODES[c.choose("code_of_error0", len(CODES))], CODES[c.choose("code_of_error1", len(CODES))]]
+        ea = store(A, which)
+        reads_store.update(ra)
+        cached = ea.file_messages("pkg/m.py")
+        eb = store(B, which)
+        warm = eb.format_messages_default(cached, None)
+        cold = eb.format_messages_default(eb.file_messages("pkg/m.py"), None)
+        n["paths"] += 1
+        c.stats["assert_queries"] += 1
+        if warm == cold:
+            c.stats["discharged"] += 1
+            return
+        c.stats["refuted"] += 1
+        m = c.path_model()
+        culprits = sorted(k[2:].split(".")[0] for k, v in m.items() if k.startswith("A.") and m.get("B." + k[2:]) is not None and m.get("B." + k[2:]) != v)
+        # attribute the difference to an option only on paths where it is the single unkeyed option
+        # that differs between the runs (every combination is explored, so such a path exists for
+        # every option that matters on its own)
+        if len(culprits) == 1:
+            found.setdefault(f"option read while diagnostics are stored and not in the cache key: {culprits[0]}", (m, warm, cold))
+        else:
+            multi.append((culprits, m, warm, cold))
+
+    multi: list = []
+    ctx.explore(body)
+    singles = {k.rsplit(": ", 1)[1] for k in found}
+    for culprits, m, warm, cold in multi:
+        if not culprits or not (set(culprits) & singles):
+            found.setdefault(f"option read while diagnostics are stored and not in the cache key: {'+'.join(culprits) or '?'}", (m, warm, cold))
+    rep.add_ctx("K1b stored-under-A vs stored-under-B equivalence", ctx, options_read_while_storing=sorted(reads_store))
+    rep.twin("K1b: storing reached and reads options", n["paths"] > 0 and len(reads_store) > 0)
+    for key, (m, warm, cold) in found.items():
+        opt = key.rsplit(": ", 1)[1]
+        rep.sample({"kernel": "K1b", "class": key, "warm": warm[:4], "cold": cold[:4]})
+        rep.candidate(key, f"toggling {opt} between runs: warm prints {warm[:3]} ..., cold prints {cold[:3]} ...", {k: v for k, v in m.items() if opt in k}, replay_option(opt, program="def f(x: int) -> None: ...\nf(1, 2)\n", extra=["--show-error-code-links"] if opt == "hide_error_codes" else None))
+
+
 FLAGS = {
+    "enabled_error_codes": "--enable-error-code=call-arg",
+    "disabled_error_codes": "--disable-error-code=call-arg",
     "show_error_context": "--show-error-context",
     "show_absolute_path": "--show-absolute-path",
     "show_column_numbers": "--show-column-numbers",
@@ -175,7 +268,7 @@ FLAGS = {
 }
 
 
-def replay_option(opt: str):
+def replay_option(opt: str, program: "str | None" = None, extra: "list | None" = None):
     def replay(d: str) -> tuple[bool, str]:
         flag = FLAGS.get(opt)
         if flag is None:
@@ -185,14 +278,20 @@ def replay_option(opt: str):
             os.makedirs(os.path.join(work, "pkg"))
             open(os.path.join(work, "pkg", "__init__.py"), "w").close()
             with open(os.path.join(work, "pkg", "m.py"), "w") as f:
-                f.write("class C:\n    def meth(self) -> int:\n        return ''\ndef f() -> int:\n    return ''\n")
+                f.write(program or "class C:\n    def meth(self) -> int:\n        return ''\ndef f() -> int:\n    return ''\n")
             with open(os.path.join(work, "main.py"), "w") as f:
                 f.write("import pkg.m\n")
+            # a per-module section that matches the module (with an unrelated setting): its own
+            # enable/disable lists are empty, the effective code sets come from the global ones
+            with open(os.path.join(work, "mypy.ini"), "w") as f:
+                f.write("[mypy]\n[mypy-pkg.*]\nwarn_return_any = True\n")
             env = dict(os.environ)
             env.pop("PYTHONPATH", None)
 
+            always = extra
+
             def run(extra: list) -> tuple[int, str]:
-                p = subprocess.run([sys.executable, "-m", "mypy", "--no-error-summary"] + extra + ["main.py"], cwd=work, capture_output=True, text=True, env=env, timeout=300)
+                p = subprocess.run([sys.executable, "-m", "mypy", "--no-error-summary"] + (always or []) + extra + ["main.py"], cwd=work, capture_output=True, text=True, env=env, timeout=300)
                 return p.returncode, p.stdout + p.stderr
 
             out = []
@@ -379,6 +478,7 @@ def main(args: Any) -> int:
     rep = Report(PID, args.tier, "symbolic execution (symx/z3) of the real render/format functions under an Options proxy whose reads are symbolic per run; key sensitivity on symbolic option vectors; replay = two real runs sharing a cache vs a cold run")
     rep.bounds += [
         "K1: one file with five diagnostics (function / method / top-level contexts, an import chain, a note, a duplicate); every bool option read is symbolic per run (keyed options equal in both runs); non-bool options at their defaults",
+        "K1b: two diagnostics with codes from {call-arg, arg-type, misc} stored through Errors.report under options A (run 1) or B (cold run 2); every bool option read symbolic per run, keyed options equal",
         "K2: all bool options of OPTIONS_AFFECTING_CACHE symbolic in two vectors",
         "K2b: each non-flag keyed option on its own (the others at their defaults): two symbolic values, lists/sets of at most two distinct names out of four, strings one of four names; plugins compared as an ordered list, the other collections as sets",
     ]
@@ -387,6 +487,7 @@ def main(args: Any) -> int:
     only = set(args.only.split(",")) if args.only else None
     if only is None or "K1" in only:
         k1_replay_path(rep)
+        k1b_storage_path(rep)
     if only is None or "K2" in only:
         k2_key(rep)
         k2b_nonbool_key(rep)
